@@ -427,5 +427,17 @@ Theorem C12_wiring_Slice_zscores :
 Proof. exact Proofs.GenAgreeWiring_C12.gen_wiring_Slice_zscores. Qed.
 Print Assumptions C12_wiring_Slice_zscores.
 
+Theorem C12_wiring_SecondOrderMeasures_pvalues :
+  wsrc_SecondOrderMeasures_pvalues = Some (WCall (WGlobal "_Pvalues") [WSelf "_dimensions"; WVar
+      "self"; WSelf "_cube_measures"] []).
+Proof. exact Proofs.GenAgreeWiring_C12.gen_wiring_SecondOrderMeasures_pvalues. Qed.
+Print Assumptions C12_wiring_SecondOrderMeasures_pvalues.
+
+Theorem C12_wiring_SecondOrderMeasures_zscores :
+  wsrc_SecondOrderMeasures_zscores = Some (WCall (WGlobal "_Zscores") [WSelf "_dimensions"; WVar
+      "self"; WSelf "_cube_measures"] []).
+Proof. exact Proofs.GenAgreeWiring_C12.gen_wiring_SecondOrderMeasures_zscores. Qed.
+Print Assumptions C12_wiring_SecondOrderMeasures_zscores.
+
 End Wiring_C12.
 (* ---- WIRING-APPENDIX:END ---- *)
